@@ -92,7 +92,7 @@ CHECKS = {
   'technique': 'Rocq proof (printer/extractor round trip) + extraction of the real files inside Coq + fault enumeration',
  },
  'C01': {
-  'text': 'Coq theorem C01_longest_match_first_pattern: for every mode automaton without lookaheads that accepts exactly its pattern languages (lang_equiv, which C01_lang_equiv_from_certificate derives from the kernel-checked C02 certificate of that very automaton), and every haystack: find_from returns None iff no pattern matches a non-empty prefix, otherwise the token ends after the LONGEST prefix some pattern matches in full and its type is that of the FIRST listed pattern matching that prefix; C01_stream_is_iterated_rule: the token stream from any reachable state is the iteration of that rule with one character skipped where nothing matches, spans absolute. Tie to the code: differential correspondence (implementation vs model on dumped automata vs declarative specification on the parsed ASTs) over generated pattern sets incl. all priority orders, plus C02 certificates for a subset of the explored configurations discharging lang_equiv.',
+  'text': 'Coq theorem C01_longest_match_first_pattern: for every mode automaton without lookaheads that accepts exactly its pattern languages (lang_equiv, which C01_lang_equiv_from_certificate derives from the kernel-checked C02 certificate of that very automaton), and every haystack: find_from returns None iff no pattern matches a non-empty prefix, otherwise the token ends after the LONGEST prefix some pattern matches in full and its type is that of the FIRST listed pattern matching that prefix; C01_stream_is_iterated_rule: the token stream from any reachable state is the iteration of that rule with one character skipped where nothing matches, spans absolute. CAPSTONE C01_compiled_scanner_is_specification (Properties/C01c.v): a scanner built from source patterns by the model of the whole pipeline (Thompson, multi-pattern NFA, closure construction, minimizer; lookaheads likewise) gives, for EVERY history of next/peek/advance_to/set_offset/mode switches/position queries, exactly the outputs of the iterator driven by the specification over the regular expressions of the patterns; no per-automaton certificate is involved, the pipeline model is compared with the dumped automata on every run (C02/C03/C15). Tie to the code: differential correspondence (implementation vs model on dumped automata vs declarative specification on the parsed ASTs) over generated pattern sets incl. all priority orders, plus C02 certificates for a subset of the explored configurations discharging lang_equiv.',
   'design_ref': 'DESIGN.md section 7, C01',
   'note': 'Trusted: Coq kernel + vm_compute; Python translators and differ; harness and read-only hooks; class/leaf predicates observed (exhaustive sweep for the certificates, per case for the differential); regex_syntax parser outside the model. Excluded by visible hypothesis and recorded as known findings: duplicate token types inside a mode (D8), token types >= 2^32 (D9).',
   'technique': 'Rocq proof (selection theorem + refinement to the declarative rule) + per-automaton certificates + differential correspondence',
